@@ -369,7 +369,51 @@ def _bounded(m, facts, idx):
     return (False, 'facts relate %s only to %s' % (start, sorted(k for k in seen if k != start)[:4]))
 
 
+def download_segment_template(ctx):
+    """Client download segments (first one after the initiate response, further ones after each acknowledge):
+    for every remaining length r the segment carries w = min(r, 7) bytes, announces n = 7 - w unused bytes and
+    sets the last-segment bit c exactly when r <= 7; the buffer index advances by w.  Boundary lengths included."""
+    m = ctx.m
+    for f in ('COCSdoInitDownloadSegmented', 'COCSdoDownloadSegmented'):
+        m.need(f)
+        for size in (300, 0x10000 + 14):
+            for r in (1, 2, 6, 7, 8, 9, 13, 14, 15, 21, 263):
+                if r > size:
+                    continue
+                inputs = {'csdo->Tfer.TBit': 0, 'csdo->Tfer.Size': size, 'csdo->Tfer.Buf_Idx': size - r,
+                          'csdo->Tfer.Idx': 0x2000, 'csdo->Tfer.Sub': 1, 'csdo->Frm->Data[0]': 0x20 if f.endswith('DownloadSegmented') and 'Init' not in f else 0x60,
+                          'csdo->Frm->Data[1]': 0x00, 'csdo->Frm->Data[2]': 0x20, 'csdo->Frm->Data[3]': 1,
+                          'call:COTmrGetTicks': 100, 'call:COTmrCreate': 1, 'call:COTmrDelete': 0, 'csdo->TxId': 0x605}
+                pe = PEval(m, f)
+                pe.record_sets = False
+                pe.keep_prefixes = ('csdo->Tfer.Size', 'csdo->Tfer.Buf_Idx', 'csdo->Tfer.TBit')
+                pe.store_filter = lambda k, fld: (fld == ('CO_CSDO_TRANSFER', 'Buf_Idx')) or k == 'frm.Data[0]'
+                trs = pe.run(dict([('csdo', 1)] + list(inputs.items())))
+                w = min(r, 7)
+                c = 1 if r <= 7 else 0
+                site = '%s size=%d remaining=%d' % (f, size, r)
+                bad = None
+                if len(trs) != 1:
+                    bad = '%d paths' % len(trs)
+                for t in trs:
+                    cmd = [e[2] for e in t.stores() if e[1] == 'frm.Data[0]'][-1:]
+                    idx = [e[2] for e in t.stores() if e[4] == ('CO_CSDO_TRANSFER', 'Buf_Idx')][-1:]
+                    if t.call_names().count('COIfCanSend') != 1:
+                        bad = '%d frames sent' % t.call_names().count('COIfCanSend')
+                    elif not cmd or cmd[0] is None or (cmd[0] & 0x0F) != (((7 - w) << 1) | c) or (cmd[0] & 0xE0) != 0:
+                        bad = 'command byte %s, required n=%d c=%d (low nibble %Xh)' % (
+                            hex(cmd[0]) if cmd and cmd[0] is not None else cmd, 7 - w, c, ((7 - w) << 1) | c)
+                    elif idx != [size - r + w]:
+                        bad = 'buffer index becomes %s, required %d' % (idx, size - r + w)
+                if bad:
+                    ctx.ob(P, 'RF13-csdo-download', f, site, None)
+                    ctx.find(P, 'RF13-csdo-download', f, 'segment:%d' % r, m.loc(f, m.funcs[f].line), '%s: %s' % (site, bad))
+                else:
+                    ctx.ob(P, 'RF13-csdo-download', f, site, 'w=%d n=%d c=%d' % (w, 7 - w, c))
+
+
 def run(ctx):
+    download_segment_template(ctx)
     finalize_once(ctx)
     request_refusal(ctx)
     per_frame_refresh(ctx)
